@@ -1,2 +1,143 @@
-/- Model driver for C06 (line protocol). Stub until the property's model lands. -/
-def main : IO Unit := pure ()
+/-
+  Model driver for C06 (line protocol, see harness/c06_small.c): the chunk-faithful small-coder models are run call by call
+  on the same pieces as the real functions. Imports Model only.
+-/
+import XzVerif.Model.Proto
+import XzVerif.Model.CoderSmall
+open XzVerif XzVerif.Proto XzVerif.Coder XzVerif.Vli
+
+def retStr (r : Ret) : String := toString r.toNat
+
+def joinSp (l : List String) : String := " ".intercalate l
+
+def parsePair (s : String) : Option (Nat × Nat) :=
+  match s.splitOn "," with
+  | [a, b] => do let x ← a.toNat?; let y ← b.toNat?; pure (x, y)
+  | _ => none
+
+/-- The call loop of `next_run` in c06_small.c: explicit pieces, then (all, 4096) pieces; stops at ret ≠ OK, or after the explicit
+    pieces when two consecutive calls did nothing. -/
+partial def nextRun {σ : Type} (c : Coder σ) (fin : Bool) (s : σ) (rest : List UInt8) (pieces : List (Nat × Nat))
+    (finishing : Bool) (idle : Nat) (calls : Nat) (acc : List String) : List String :=
+  if calls ≥ 100000 then acc.reverse
+  else
+    let (want, cap, pieces') := match pieces with
+      | (a, b) :: t => (a, b, t)
+      | [] => (rest.length, 4096, [])
+    let left := rest.length
+    let ain := if finishing then left else min want left
+    let isFin := fin && ain == left
+    let finishing := finishing || isFin
+    let r := c.code s (rest.take ain) cap (if isFin then .finish else .run)
+    let entry := s!"{retStr r.2.ret}:{r.2.consumed}:{hexOfBytes r.2.out}"
+    let acc := entry :: acc
+    if r.2.ret != .ok then acc.reverse
+    else
+      let idle := if r.2.consumed == 0 && r.2.out.isEmpty then idle + 1 else 0
+      if pieces'.isEmpty && idle ≥ 2 then
+        -- (`i >= l->ntok` is evaluated after the piece was taken)
+        acc.reverse
+      else nextRun c fin r.1 (rest.drop r.2.consumed) pieces' finishing idle (calls + 1) acc
+
+partial def fieldRun (size : Nat) (buf : List UInt8) (rest : List UInt8) (pieces : List Nat) (acc : List String) : List String × List UInt8 :=
+  let (want, pieces', last) := match pieces with
+    | a :: t => (a, t, false)
+    | [] => (rest.length, [], true)
+  let ain := min want rest.length
+  let r := (fieldCoder size).code buf (rest.take ain) 0 .run
+  let acc := s!"{r.2.consumed}:{r.1.length}" :: acc
+  if r.1.length == size || last then (acc.reverse, r.1)
+  else fieldRun size r.1 (rest.drop r.2.consumed) pieces' acc
+
+partial def ixRun (s : IxState) (rest : List UInt8) (pieces : List Nat) (acc : List String) : List String × IxState × Option Ret :=
+  let (want, pieces', last) := match pieces with
+    | a :: t => (a, t, false)
+    | [] => (rest.length, [], true)
+  let ain := min want rest.length
+  let r := ixFeed s (rest.take ain)
+  let ret := match r.2.1 with | some x => x | none => Ret.ok
+  let acc := s!"{retStr ret}:{r.2.2}" :: acc
+  if r.2.1.isSome || last then (acc.reverse, r.1, r.2.1)
+  else ixRun r.1 (rest.drop r.2.2) pieces' acc
+
+def step (_ : Unit) (ws : List String) : Unit × String :=
+  match ws with
+  | "vlid" :: hx :: pieces =>
+    match bytesOfHex hx, pieces.mapM String.toNat? with
+    | some bs, some ps =>
+      let (calls, v, p) := vliDecodePieces ps 6148914691236517205 0 bs
+      ((), joinSp (calls.map fun (r, c) => s!"{retStr r}:{c}") ++ s!" | vli={v} pos={p}")
+    | _, _ => ((), "bad-op")
+  | ["vlid1", hx] =>
+    match bytesOfHex hx with
+    | some bs =>
+      match vliDecode bs with
+      | some (v, rest) => ((), s!"0 {v} {bs.length - rest.length}")
+      | none => ((), "9 - -")
+    | none => ((), "bad-op")
+  | "vlie" :: v :: caps =>
+    match v.toNat?, caps.mapM String.toNat? with
+    | some v, some cs =>
+      let (calls, p) := vliEncodePieces cs v 0
+      ((), joinSp (calls.map fun (r, bs) => s!"{retStr r}:{hexOfBytes bs}") ++ s!" | pos={p}")
+    | _, _ => ((), "bad-op")
+  | ["vlie1", v, cap] =>
+    match v.toNat?, cap.toNat? with
+    | some v, some c =>
+      match vliEncodeSingle v c with
+      | .ok bs => ((), s!"0:{hexOfBytes bs}")
+      | .error r => ((), s!"{retStr r}:-")
+    | _, _ => ((), "bad-op")
+  | "field" :: size :: hx :: pieces =>
+    match size.toNat?, bytesOfHex hx, pieces.mapM String.toNat? with
+    | some sz, some bs, some ps =>
+      let (calls, buf) := fieldRun sz [] bs ps []
+      ((), joinSp calls ++ " | " ++ hexOfBytes buf)
+    | _, _, _ => ((), "bad-op")
+  | "simple" :: unit :: umax :: enc :: next :: fin :: hx :: pieces =>
+    match unit.toNat?, umax.toNat?, enc.toNat?, next.toNat?, fin.toNat?, bytesOfHex hx, pieces.mapM parsePair with
+    | some u, some um, some e, some nx, some f, some bs, some ps =>
+      let F := testFilter u (e != 0)
+      let out :=
+        if nx == 0 then
+          nextRun (simpleCoder F (Src.null (e != 0)) (2 * um)) (f != 0) (Simple.init 0 ()) bs ps false 0 0 []
+        else
+          let total := if nx == 2 then bs.length - 1 else bs.length
+          nextRun (simpleCoder F Src.stub (2 * um)) (f != 0) (Simple.init 0 (total, nx == 2)) bs ps false 0 0 []
+      ((), joinSp out)
+    | _, _, _, _, _, _, _ => ((), "bad-op")
+  | "delta" :: dist :: enc :: next :: fin :: hx :: pieces =>
+    match dist.toNat?, enc.toNat?, next.toNat?, fin.toNat?, bytesOfHex hx, pieces.mapM parsePair with
+    | some d, some e, some nx, some f, some bs, some ps =>
+      let out :=
+        if nx == 0 then nextRun deltaEncCoder (f != 0) (Delta.State.init d) bs ps false 0 0 []
+        else
+          let total := if nx == 2 then bs.length - 1 else bs.length
+          nextRun (deltaNextCoder Src.stub (e != 0)) (f != 0) (Delta.State.init d, (total, nx == 2)) bs ps false 0 0 []
+      ((), joinSp out)
+    | _, _, _, _, _, _ => ((), "bad-op")
+  | "ixd" :: hx :: pieces =>
+    match bytesOfHex hx, pieces.mapM String.toNat? with
+    | some bs, some ps =>
+      let (calls, s, v) := ixRun {} bs ps []
+      let big := s.records.any (fun (a, b) => a > 2 ^ 40 || b > 2 ^ 40) || s.count > 2 ^ 20
+      if big then ((), "skip")
+      else
+        let recs := if v == some .streamEnd then joinSp (s.records.reverse.map fun (a, b) => s!"{a}/{b}") else "-"
+        ((), joinSp calls ++ " | " ++ (if recs == "" then "-" else recs))
+    | _, _ => ((), "bad-op")
+  | ["l2d", hx] =>
+    match bytesOfHex hx with
+    | some bs =>
+      let (_, evs, used) := l2Feed {} bs
+      if evs.any (fun e => match e with | .lzmaByte _ => true | _ => false) then ((), "skip")
+      else
+        let out := evs.filterMap fun e => match e with | .copyByte b => some b | _ => none
+        let ret := match evs.getLast? with
+          | some (.finished r) => r
+          | _ => Ret.bufError
+        ((), s!"{retStr ret} {used} {hexOfBytes out}")
+    | none => ((), "bad-op")
+  | _ => ((), "bad-op")
+
+def main : IO Unit := runLoop step ()
